@@ -8,6 +8,7 @@ from __future__ import annotations
 
 import io
 import struct
+import tempfile
 from typing import Any, Dict, List, Optional, Tuple
 
 from rv import gen_vtf as G
@@ -44,6 +45,9 @@ JOBS = {'quick': 4, 'thorough': 16}
 
 
 # ------------------------------------------------------------------------------------------------ helpers
+
+_IO = [0]
+
 
 def _mods():
     import srctools.vtf as vm
@@ -239,14 +243,22 @@ def one_pass(ctx: CaseCtx, vtf, inputs: Dict[Tuple[int, Any, int], bytes], phase
     built_count = vtf.mipmap_count
     levels = table_levels(vtf)
 
-    buf = io.BytesIO()
+    # one pass in eight goes through a real file on disk (saved to it, read back from it), the rest through BytesIO
+    _IO[0] += 1
+    real = _IO[0] % 8 == 0
+    buf: Any = tempfile.TemporaryFile('w+b') if real else io.BytesIO()
     try:
         vtf.save(buf, **save_kw)
     except Exception as exc:
         ctx.bad('save-raises', f'VTF.save raised {type(exc).__name__}: {exc}', phase=phase)
         return None, None
     run.count('saves')
-    data = buf.getvalue()
+    if real:
+        buf.seek(0)
+        data = buf.read()
+        run.count('real_file_passes')
+    else:
+        data = buf.getvalue()
 
     # --- the file must contain exactly the image data its own header declares (decoded without the library)
     is_cube = bool(vtf.flags.value & G.ENVMAP)
@@ -321,8 +333,14 @@ def one_pass(ctx: CaseCtx, vtf, inputs: Dict[Tuple[int, Any, int], bytes], phase
 
     # --- read back
     try:
-        back = vm.VTF.read(io.BytesIO(data))
-        back.load()
+        if real:
+            buf.seek(0)
+            back = vm.VTF.read(buf)
+            back.load()
+            buf.close()
+        else:
+            back = vm.VTF.read(io.BytesIO(data))
+            back.load()
     except Exception as exc:
         ctx.bad('read-raises', f'VTF.read/load of the saved file raised {type(exc).__name__}: {exc}',
                 witness={'file_len': len(data)}, phase=phase)
@@ -777,7 +795,7 @@ def main(run, shard=(0, 1)) -> None:
     probe.report(run)
     probe.check_reached(run)
     run.extra['formats'] = list(G.WRITABLE)
-    run.require('saves', 'reads', 'resaves', 'frames_compared', 'thumbnails_compared', 'generated_mipmaps_checked', 'nearest_filter_regenerations',
+    run.require('saves', 'reads', 'real_file_passes', 'resaves', 'frames_compared', 'thumbnails_compared', 'generated_mipmaps_checked', 'nearest_filter_regenerations',
                 'index_probes', 'resource_sets_compared', 'sheets_compared', 'one_wide_textures', 'cubemaps_with_sphere',
                 'cubemaps_without_sphere', 'volumetric_textures', 'reduced_precision_main_format', 'handmade_files_read',
                 'sweep_images')
